@@ -436,3 +436,169 @@ Proof.
     h4 c; auto.
 Qed.
 
+
+Lemma C1_step s o : InvA s -> InvB s -> C1 (fst (step s o)).
+Proof.
+  startB. stepcases o; intros; try discriminate; eauto.
+  all: try solve [match goal with H : In ?c (trash _) |- _ =>
+       destruct (HC1 c H) as [?|?]; [left; mono_flags | gn; ifs; simpl; bool_hyps; auto; right; lia] end].
+  - (* ReturnRead *)
+    bool_hyps. destruct (HC1 c0 H) as [Hc|Hp]; [left; mono_flags|].
+    destruct (Nat.eq_dec c0 c) as [->|N]; [|gno; right; assumption].
+    rewrite getc_updc_same by assumption.
+    destruct (dead (getc s c)) eqn:D.
+    + left. simpl. apply dead_closed; assumption.
+    + right. apply mem_In in H. rewrite H. simpl. lia.
+  - (* ReturnTrash closing *)
+    bool_hyps. apply In_del in H. destruct H as [N Hin]. gno. auto.
+  - (* ReturnTrash not closing *)
+    bool_hyps. destruct (HC1 c0 H) as [Hc|Hp]; [left; mono_flags|].
+    destruct (Nat.eq_dec c0 c) as [->|N]; [|gno; right; assumption].
+    rewrite getc_updc_same by assumption. right. simpl.
+    apply mem_In in H. rewrite H, andb_true_r in E0. bool_hyps.
+    destruct HA as [_ HA]. destruct (HA c) as (?&?&?&?&?&?&?). lia.
+  - (* ReplaceConnect *)
+    rewrite (getc_app s) by reflexivity. auto.
+  - (* ReplaceFinish trashing *)
+    apply In_ins in H. bool_hyps. destruct (Nat.eq_dec c n) as [->|N].
+    + right. gs. rewrite getc_updc_same by (destruct (H2 n) as [? _]; [inapp; tauto|assumption]). simpl. gs.
+      destruct HA as [_ HA]. destruct (HA n) as (?&?&?&?&?&?&?). lia.
+    + gno. destruct H as [H|H]; [congruence|auto].
+Qed.
+
+Ltac rfc2 s :=
+  match goal with Hf : finishing _ = ?n :: _, H2 : forall _, In _ _ -> _ /\ _, Hr : c_replaced (getc _ ?c) = true |- _ =>
+    assert (Hn : (n < length (conns s))%nat) by (destruct (H2 n) as [? _]; [inapp; tauto|assumption]);
+    destruct (Nat.eq_dec c n) as [->|N];
+    [ try rewrite In_ins; first [ right; left; reflexivity |
+      left; gs; repeat (rewrite getc_updc_same by (simpl; rewrite ?length_upd; unfold updc; simpl; rewrite ?length_upd; exact Hn)); simpl;
+      first [reflexivity | gs; destruct (H2 n) as [_ [Ht|Hc]]; [inapp; tauto|congruence|assumption]] ]
+    | revert Hr; gno; intros Hr; try rewrite In_ins;
+      match goal with HC2 : forall c, c_replaced _ = true -> _ |- _ => destruct (HC2 c Hr); tauto end ] end.
+
+Lemma C2_step s o : InvA s -> InvB s -> C2 (fst (step s o)).
+Proof.
+  startB. stepcases o; intros; try discriminate; eauto.
+  all: try solve [match goal with H : c_replaced (getc _ ?c) = true |- _ =>
+       revert H; gn; ifs; simpl; intros H; (destruct (HC2 c H) as [?|?]; [left; mono_flags | right; assumption]) end].
+  - (* ReturnTrash closing *)
+    bool_hyps. destruct (Nat.eq_dec c0 c) as [->|N].
+    + left. rewrite getc_updc_same by (simpl; rewrite ?length_upd; unfold updc; simpl; rewrite ?length_upd; assumption). reflexivity.
+    + revert H. gno. intros H. rewrite In_del. destruct (HC2 c0 H); tauto.
+  - (* ReplaceConnect *)
+    rewrite (getc_app s) in * by reflexivity. auto.
+  - rfc2 s.
+  - rfc2 s.
+  - rfc2 s.
+  - rfc2 s.
+  - rfc2 s.
+  - rfc2 s.
+  - (* ShutdownTrash *)
+    destruct (getc_close_all s (set_conns (set_trash (set_phase s 3) []) (close_all (trash s) (conns s))) (trash s) c eq_refl) as [(_&_&_&_&_&_&_&_&R&Rc) Rt].
+    rewrite R in H. left. destruct (HC2 c H) as [?|Hin]; [auto|].
+    apply Rt; [assumption|apply H7; assumption].
+Qed.
+
+(* ------------------------------------------------------------------ the invariant holds in every reachable state *)
+Definition Inv (s : state) : Prop := InvA s /\ InvB s.
+
+Lemma Inv_step s o : Inv s -> Inv (fst (step s o)).
+Proof.
+  intros [HA HB]. split; [apply InvA_step; assumption|].
+  split; [apply B1_step; assumption|]. split; [apply B2_step; assumption|].
+  split; [apply B3_step; assumption|]. split; [apply B4_step; assumption|].
+  split; [apply B5_step; assumption|]. split; [apply B6_step; assumption|].
+  split; [apply B7_step; assumption|]. split; [apply B8_step; assumption|].
+  split; [apply B9_step; assumption|]. split; [apply B10_step; assumption|].
+  split; [apply C1_step; assumption|apply C2_step; assumption].
+Qed.
+
+Lemma Inv_init w mx th : 0 <= mx -> Inv (init w mx th).
+Proof.
+  intros H. split; [apply InvA_init, H|].
+  assert (Hn : forall c (l : list conn), (length l <= 1)%nat -> Forall (fun k => k = new_conn) l -> nth c l new_conn = new_conn).
+  { intros c l Hl Hf. destruct l as [|k [|k2 l]]; simpl in *; try lia.
+    - destruct c; reflexivity.
+    - inversion Hf; subst. destruct c as [|[|c]]; reflexivity. }
+  assert (Hg : forall c, getc (init w mx th) c = new_conn).
+  { intros c. unfold getc, init; simpl. apply Hn; destruct w; simpl; auto. }
+  unfold InvB, B1, B2, B3, B4, B5, B6, B7, B8, B9, B10, C1, C2, tasks_old, tasks_pending.
+  repeat split; intros; rewrite ?Hg in *; simpl in *; try tauto; try lia; try discriminate.
+  destruct w; simpl in *; [|lia]. destruct c; [right; left; reflexivity|lia].
+  destruct w; simpl in *; [|discriminate]. match goal with H : Some _ = Some _ |- _ => injection H as <- end. lia.
+Qed.
+
+Lemma Inv_run ops : forall s, Inv s -> Inv (run s ops).
+Proof. unfold run. induction ops as [|o r IH]; intros s H; simpl; [exact H|]. apply IH, Inv_step, H. Qed.
+
+Lemma Inv_reach w mx th ops : 0 <= mx -> Inv (run (init w mx th) ops).
+Proof. intros H. apply Inv_run, Inv_init, H. Qed.
+
+(* ------------------------------------------------------------------ consequences *)
+Lemma inv_capacity s c : Inv s -> 0 <= c_inflight (getc s c) <= maxid s /\ c_inflight (getc s c) = c_live (getc s c) + c_orph (getc s c).
+Proof. intros [[_ HA] _]. destruct (HA c) as (?&?&?&?&?&?&?). lia. Qed.
+
+Lemma maxid_step s o : maxid (fst (step s o)) = maxid s.
+Proof. destruct o; simpl; split_step; reflexivity. Qed.
+
+Lemma maxid_run ops : forall s, maxid (run s ops) = maxid s.
+Proof. unfold run. induction ops as [|o r IH]; intros s; simpl; [reflexivity|]. rewrite IH. apply maxid_step. Qed.
+
+Lemma shut_step s o : shut s = true -> shut (fst (step s o)) = true.
+Proof. intros H. destruct o; simpl; split_step; simpl; auto; try discriminate; try congruence. Qed.
+
+Lemma shut_run ops : forall s, shut s = true -> shut (run s ops) = true.
+Proof. unfold run. induction ops as [|o r IH]; intros s H; simpl; [exact H|]. apply IH, shut_step, H. Qed.
+
+Lemma getconn_shut s : shut s = true -> step s GetConn = (s, [OErrShutdown]).
+Proof. intros H. simpl. unfold get_conn. rewrite H. reflexivity. Qed.
+
+Lemma inv_closes s : Inv s -> quiescent s = true -> all_closed s = true.
+Proof.
+  intros [HA (B1&B2&B3&B4&B5&B6&B7&B8&_)] Hq. unfold quiescent, no_tasks in Hq.
+  apply andb_prop in Hq. destruct Hq as [Hn Hp]. apply Z.eqb_eq in Hp.
+  destruct (queue s) eqn:Q; [|discriminate]. destruct (connecting s) eqn:Cn; [|discriminate].
+  destruct (assigning s) eqn:As; [|discriminate]. destruct (finishing s) eqn:Fi; [|discriminate].
+  destruct B8 as (_&_&_&Hc&Ht). specialize (Hc ltac:(lia)). specialize (Ht Hp).
+  unfold all_closed. apply forallb_forall. intros k Hk.
+  destruct (In_nth _ _ new_conn Hk) as (c&Hlt&Hnth).
+  destruct (B4 c Hlt) as [H|[H|[H|[H|H]]]].
+  - unfold getc in H. rewrite Hnth in H. exact H.
+  - congruence.
+  - rewrite Ht in H. destruct H.
+  - rewrite As in H. destruct H.
+  - rewrite Fi in H. destruct H.
+Qed.
+
+Lemma inv_new_requests_move s c c' : Inv s -> c_replaced (getc s c) = true ->
+  In (OConn c') (snd (step s GetConn)) -> (c < c')%nat.
+Proof.
+  intros [_ (_&_&_&_&_&_&_&_&_&B10&_)] Hr Hin. simpl in Hin. unfold get_conn in Hin.
+  destruct (shut s); [destruct Hin as [H|[]]; discriminate|].
+  destruct (cur s) eqn:Cu; [|destruct Hin as [H|[]]; discriminate].
+  destruct Hin as [H|[]]. injection H as <-. apply (B10 c n Hr Cu).
+Qed.
+
+Lemma close_only_idle s o c why : Inv s -> In (OClose c why) (snd (step s o)) ->
+  why = BY_TRASH \/ why = BY_REPLACE -> c_live (getc s c) = 0.
+Proof.
+  intros Hi Hin Hw.
+  assert (Hacc : forall x, c_inflight (getc s x) = c_orph (getc s x) -> c_live (getc s x) = 0).
+  { intros x Hx. destruct (inv_capacity s x Hi) as [_ E]. lia. }
+  unfold BY_TRASH, BY_REPLACE in Hw.
+  destruct o; simpl in Hin; unfold get_conn in Hin; revert Hin; split_step; simpl; intros Hin;
+    repeat match goal with H : _ \/ _ |- _ => destruct H | H : False |- _ => destruct H end;
+    try discriminate;
+    try (match goal with H : OClose _ _ = OClose _ _ |- _ => injection H as <- <- end; unfold BY_SHUTDOWN, BY_ABORT, BY_SELF in *; try lia;
+         bool_hyps; apply Hacc; assumption).
+  (* ShutdownTrash: reason is BY_SHUTDOWN *)
+  all: apply in_map_iff in Hin; destruct Hin as (x&Hx&_); injection Hx as _ <-; unfold BY_SHUTDOWN in *; lia.
+Qed.
+
+Lemma inv_eventually_closed s c : Inv s -> c_replaced (getc s c) = true ->
+  c_live (getc s c) = 0 -> c_retp (getc s c) = 0 -> c_trp (getc s c) = 0 -> c_closed (getc s c) = true.
+Proof.
+  intros [_ (_&_&_&_&_&_&_&_&_&_&C1&C2)] Hr H1 H2 H3.
+  destruct (C2 c Hr) as [H|H]; [exact H|].
+  destruct (C1 c H) as [Hc|Hp]; [exact Hc|lia].
+Qed.
